@@ -9,7 +9,7 @@ package forkexec
 // becomes -1) and nextfd lies above the list length and above every listed number.
 //@ func pkg/forkexec.prepareFds props C06
 //@   arith int
-//@   requires forall k int :: 0 <= k && k < len(files) ==> files[k] < 2147483648 || files[k] == 18446744073709551615
+//@   requires #int forall k int :: 0 <= k && k < len(files) ==> files[k] < 2147483648 || files[k] == 18446744073709551615
 //@   assigns nothing
 //@   ensures len(result.0) == len(files) && fresh(result.0) && soff(result.0) == 0
 //@   ensures forall k int :: 0 <= k && k < len(files) ==> (files[k] == 18446744073709551615 ==> result.0[k] == -1) && (files[k] != 18446744073709551615 ==> result.0[k] == files[k])
@@ -44,59 +44,107 @@ package forkexec
 // system call its documented effect on the ghost child state; every call may fail.
 // int mode: descriptor shuffle (C06), frame (C06), error reporting (C07), rlimits (C08).
 // bv mode: flag words and the exec-point security state (C03, C04, C05, C07).
-//@ func pkg/forkexec.forkAndExecInChild props C06
-//@   arith int
+//@ func pkg/forkexec.forkAndExecInChild props C03 C04 C05 C06 C07 C08
+//@   arith int bv
 //@   requires r != nil
-//@   requires forall k int :: 0 <= k && k < len(r.Files) ==> r.Files[k] < 2147483648 || r.Files[k] == 18446744073709551615
+//@   requires #int forall k int :: 0 <= k && k < len(r.Files) ==> r.Files[k] < 2147483648 || r.Files[k] == 18446744073709551615
 //@   requires 0 <= p[0] && p[0] < 2147483648 && 0 <= p[1] && p[1] < 2147483648 && p[0] != p[1]
 //@   requires r.ExecFile < 2147483648 && len(r.Files) < 1048576
 //@   requires len(argv) >= 1 && len(env) >= 1
-//@   assume forall j int :: K.fdt[j] != 0 ==> K.clo[j]
+//@   assume #int forall j int :: K.fdt[j] != 0 ==> K.clo[j]
 //@   assume K.fdt[p[1]] != 0
-//@   assume forall k int :: 0 <= k && k < len(r.Files) ==> r.Files[k] != p[0]
+//@   assume #int forall k int :: 0 <= k && k < len(r.Files) ==> r.Files[k] != p[0]
 //@   assigns K.fdt, K.clo, K.pid, K.secbits, K.caps_empty, K.nnp, K.filter, K.filter_flags, K.uid, K.uid_set, K.gid, K.gid_set, K.groups_set, K.ngroups, K.groups_ptr, K.sid_new, K.ctty, K.cwd, K.host, K.hostlen, K.host_issued, K.domain, K.domainlen, K.domain_issued, K.clone_flags, K.clone3, K.clone_cgroup, K.mnt_src, K.mnt_type, K.mnt_flags, K.mnt_data, K.mnt_done, K.remount, K.remount_done, K.nmount, K.pivoted, K.pivot_new, K.pivot_old, K.old_detached, K.old_removed, K.rl_cur, K.rl_max, K.rl_set, K.traceme, K.stopped_self, K.sync_stage, K.sync_wfile, K.sync_rfile, K.idmap_read, K.unshare_cgroup_issued, K.last_trap, K.last_errno, K.reported, K.reported_loc, K.reported_err, K.reported_idx, K.exec_attempts
-//@   loop 0: invariant nextfd > len(fd) && nextfd + ite(pipe >= nextfd, 1, 0) <= 2147483651
-//@   loop 0: invariant forall k int :: 0 <= k && k < len(fd) ==> fd[k] < nextfd
-//@   loop 0: decreases ite(pipe >= nextfd, 1, 0)
-//@   loop 1: invariant 0 <= i && i <= len(fd) && nextfd > len(fd) && nextfd <= 2147483652 + 3 * i
-//@   loop 1: invariant fresh(fd) && soff(fd) == 0
-//@   loop 1: invariant len(fd) == len(old(r.Files)) && pipe >= len(fd) && K.fdt[pipe] == old(K.fdt[p[1]]) && K.clo[pipe]
-//@   loop 1: invariant forall k int :: 0 <= k && k < len(fd) ==> -1 <= fd[k] && fd[k] < nextfd
-//@   loop 1: invariant forall k int :: 0 <= k && k < len(fd) ==> (fd[k] == -1 <==> old(r.Files[k]) == 18446744073709551615)
-//@   loop 1: invariant forall k int :: 0 <= k && k < i ==> fd[k] == -1 || fd[k] >= k
-//@   loop 1: invariant forall k int :: 0 <= k && k < len(fd) && fd[k] != -1 ==> K.fdt[fd[k]] == old(K.fdt[r.Files[k]])
-//@   loop 1: invariant forall j int :: j >= len(fd) && K.fdt[j] != 0 ==> K.clo[j]
-//@   loop 1: decreases len(fd) - i
-//@   loop 2: invariant nextfd > len(fd) && nextfd + ite(pipe >= nextfd, 1, 0) + ite(int(execFile) >= nextfd, 1, 0) <= 2147483654 + 3 * i
-//@   loop 2: invariant forall k int :: 0 <= k && k < len(fd) ==> fd[k] < nextfd
-//@   loop 2: decreases ite(pipe >= nextfd, 1, 0) + ite(int(execFile) >= nextfd, 1, 0)
-//@   loop 3: invariant 0 <= i && i <= len(fd) && len(fd) == len(old(r.Files))
-//@   loop 3: invariant fresh(fd) && soff(fd) == 0
-//@   loop 3: invariant pipe >= len(fd) && K.fdt[pipe] == old(K.fdt[p[1]]) && K.clo[pipe]
-//@   loop 3: invariant forall k int :: 0 <= k && k < len(fd) ==> (fd[k] == -1 <==> old(r.Files[k]) == 18446744073709551615)
-//@   loop 3: invariant forall k int :: 0 <= k && k < i ==> (fd[k] == -1 && K.fdt[k] == 0) || (fd[k] != -1 && K.fdt[k] == old(K.fdt[r.Files[k]]) && !K.clo[k])
-//@   loop 3: invariant forall k int :: i <= k && k < len(fd) ==> fd[k] == -1 || (fd[k] >= k && fd[k] < 2160000000 && K.fdt[fd[k]] == old(K.fdt[r.Files[k]]))
-//@   loop 3: invariant forall j int :: j >= len(fd) && K.fdt[j] != 0 ==> K.clo[j]
-//@   loop 3: decreases len(fd) - i
-//@   loop 4: invariant -1 <= rangeindex && rangeindex < len(old(r.Mounts))
-//@   loop 4: invariant forall k int :: 0 <= k && k < len(old(r.Files)) && old(r.Files[k]) == 18446744073709551615 ==> K.fdt[k] == 0
-//@   loop 4: invariant forall k int :: 0 <= k && k < len(old(r.Files)) && old(r.Files[k]) != 18446744073709551615 ==> K.fdt[k] == old(K.fdt[r.Files[k]]) && !K.clo[k]
-//@   loop 4: invariant forall j int :: j >= len(old(r.Files)) && K.fdt[j] != 0 ==> K.clo[j]
-//@   loop 5: invariant -1 <= rangeindex && rangeindex < len(m.Prefixes)
-//@   loop 6: invariant -1 <= rangeindex && rangeindex < len(old(r.RLimits))
-//@   loop 6: invariant forall k int :: 0 <= k && k < len(old(r.Files)) && old(r.Files[k]) == 18446744073709551615 ==> K.fdt[k] == 0
-//@   loop 6: invariant forall k int :: 0 <= k && k < len(old(r.Files)) && old(r.Files[k]) != 18446744073709551615 ==> K.fdt[k] == old(K.fdt[r.Files[k]]) && !K.clo[k]
-//@   loop 6: invariant forall j int :: j >= len(old(r.Files)) && K.fdt[j] != 0 ==> K.clo[j]
-//@   loop 7: invariant -1 <= rangeindex && rangeindex < 50
-//@   loop 7: invariant forall k int :: 0 <= k && k < len(old(r.Files)) && old(r.Files[k]) == 18446744073709551615 ==> K.fdt[k] == 0
-//@   loop 7: invariant forall k int :: 0 <= k && k < len(old(r.Files)) && old(r.Files[k]) != 18446744073709551615 ==> K.fdt[k] == old(K.fdt[r.Files[k]]) && !K.clo[k]
-//@   loop 7: invariant forall j int :: j >= len(old(r.Files)) && K.fdt[j] != 0 ==> K.clo[j]
-//@   callsite syscall.RawSyscall6 when trap == 322: assert @C06 forall k int :: 0 <= k && k < len(old(r.Files)) && old(r.Files[k]) == 18446744073709551615 ==> K.fdt[k] == 0
-//@   callsite syscall.RawSyscall6 when trap == 322: assert @C06 forall k int :: 0 <= k && k < len(old(r.Files)) && old(r.Files[k]) != 18446744073709551615 ==> K.fdt[k] == old(K.fdt[r.Files[k]]) && !K.clo[k]
-//@   callsite syscall.RawSyscall6 when trap == 322: assert @C06 forall j int :: j >= len(old(r.Files)) && K.fdt[j] != 0 ==> K.clo[j]
-//@   callsite syscall.RawSyscall when trap == 59: assert @C06 forall k int :: 0 <= k && k < len(old(r.Files)) && old(r.Files[k]) == 18446744073709551615 ==> K.fdt[k] == 0
-//@   callsite syscall.RawSyscall when trap == 59: assert @C06 forall k int :: 0 <= k && k < len(old(r.Files)) && old(r.Files[k]) != 18446744073709551615 ==> K.fdt[k] == old(K.fdt[r.Files[k]]) && !K.clo[k]
-//@   callsite syscall.RawSyscall when trap == 59: assert @C06 forall j int :: j >= len(old(r.Files)) && K.fdt[j] != 0 ==> K.clo[j]
+//@   loop 0: invariant #int nextfd > len(fd) && nextfd + ite(pipe >= nextfd, 1, 0) <= 2147483651
+//@   loop 0: invariant #int forall k int :: 0 <= k && k < len(fd) ==> fd[k] < nextfd
+//@   loop 0: decreases #int ite(pipe >= nextfd, 1, 0)
+//@   loop 1: invariant #int 0 <= i && i <= len(fd) && nextfd > len(fd) && nextfd <= 2147483652 + 3 * i
+//@   loop 1: invariant #int fresh(fd) && soff(fd) == 0 && K.sync_stage == 0
+//@   loop 1: invariant #int len(fd) == len(old(r.Files)) && pipe >= len(fd) && K.fdt[pipe] == old(K.fdt[p[1]]) && K.clo[pipe]
+//@   loop 1: invariant #int forall k int :: 0 <= k && k < len(fd) ==> -1 <= fd[k] && fd[k] < nextfd
+//@   loop 1: invariant #int forall k int :: 0 <= k && k < len(fd) ==> (fd[k] == -1 <==> old(r.Files[k]) == 18446744073709551615)
+//@   loop 1: invariant #int forall k int :: 0 <= k && k < i ==> fd[k] == -1 || fd[k] >= k
+//@   loop 1: invariant #int forall k int :: 0 <= k && k < len(fd) && fd[k] != -1 ==> K.fdt[fd[k]] == old(K.fdt[r.Files[k]])
+//@   loop 1: invariant #int forall j int :: j >= len(fd) && K.fdt[j] != 0 ==> K.clo[j]
+//@   loop 1: decreases #int len(fd) - i
+//@   loop 2: invariant #int nextfd > len(fd) && nextfd + ite(pipe >= nextfd, 1, 0) + ite(int(execFile) >= nextfd, 1, 0) <= 2147483654 + 3 * i
+//@   loop 2: invariant #int forall k int :: 0 <= k && k < len(fd) ==> fd[k] < nextfd
+//@   loop 2: decreases #int ite(pipe >= nextfd, 1, 0) + ite(int(execFile) >= nextfd, 1, 0)
+//@   loop 3: invariant #int 0 <= i && i <= len(fd) && len(fd) == len(old(r.Files))
+//@   loop 3: invariant #int fresh(fd) && soff(fd) == 0 && K.sync_stage == 0
+//@   loop 3: invariant #int pipe >= len(fd) && K.fdt[pipe] == old(K.fdt[p[1]]) && K.clo[pipe]
+//@   loop 3: invariant #int forall k int :: 0 <= k && k < len(fd) ==> (fd[k] == -1 <==> old(r.Files[k]) == 18446744073709551615)
+//@   loop 3: invariant #int forall k int :: 0 <= k && k < i ==> (fd[k] == -1 && K.fdt[k] == 0) || (fd[k] != -1 && K.fdt[k] == old(K.fdt[r.Files[k]]) && !K.clo[k])
+//@   loop 3: invariant #int forall k int :: i <= k && k < len(fd) ==> fd[k] == -1 || (fd[k] >= k && fd[k] < 2160000000 && K.fdt[fd[k]] == old(K.fdt[r.Files[k]]))
+//@   loop 3: invariant #int forall j int :: j >= len(fd) && K.fdt[j] != 0 ==> K.clo[j]
+//@   loop 3: decreases #int len(fd) - i
+//@   loop 4: invariant #int pipe >= len(old(r.Files)) && K.fdt[pipe] == old(K.fdt[p[1]]) && K.sync_stage == 0
+//@   loop 4: invariant #int -1 <= rangeindex && rangeindex < len(old(r.Mounts))
+//@   loop 4: invariant #int forall k int :: 0 <= k && k < len(old(r.Files)) && old(r.Files[k]) == 18446744073709551615 ==> K.fdt[k] == 0
+//@   loop 4: invariant #int forall k int :: 0 <= k && k < len(old(r.Files)) && old(r.Files[k]) != 18446744073709551615 ==> K.fdt[k] == old(K.fdt[r.Files[k]]) && !K.clo[k]
+//@   loop 4: invariant #int forall j int :: j >= len(old(r.Files)) && K.fdt[j] != 0 ==> K.clo[j]
+//@   loop 5: invariant #int -1 <= rangeindex && rangeindex < len(m.Prefixes)
+//@   loop 6: invariant #int pipe >= len(old(r.Files)) && K.fdt[pipe] == old(K.fdt[p[1]]) && K.sync_stage == 0
+//@   loop 6: invariant #int -1 <= rangeindex && rangeindex < len(old(r.RLimits))
+//@   loop 6: invariant #int forall k int :: 0 <= k && k < len(old(r.Files)) && old(r.Files[k]) == 18446744073709551615 ==> K.fdt[k] == 0
+//@   loop 6: invariant #int forall k int :: 0 <= k && k < len(old(r.Files)) && old(r.Files[k]) != 18446744073709551615 ==> K.fdt[k] == old(K.fdt[r.Files[k]]) && !K.clo[k]
+//@   loop 6: invariant #int forall j int :: j >= len(old(r.Files)) && K.fdt[j] != 0 ==> K.clo[j]
+//@   loop 7: invariant #int -1 <= rangeindex && rangeindex < 50 && sync_files_ok()
+//@   loop 7: invariant #int forall k int :: 0 <= k && k < len(old(r.Files)) && old(r.Files[k]) == 18446744073709551615 ==> K.fdt[k] == 0
+//@   loop 7: invariant #int forall k int :: 0 <= k && k < len(old(r.Files)) && old(r.Files[k]) != 18446744073709551615 ==> K.fdt[k] == old(K.fdt[r.Files[k]]) && !K.clo[k]
+//@   loop 7: invariant #int forall j int :: j >= len(old(r.Files)) && K.fdt[j] != 0 ==> K.clo[j]
+//@   callsite syscall.RawSyscall6 when trap == 322: assert @C06 #int forall k int :: 0 <= k && k < len(old(r.Files)) && old(r.Files[k]) == 18446744073709551615 ==> K.fdt[k] == 0
+//@   callsite syscall.RawSyscall6 when trap == 322: assert @C06 #int forall k int :: 0 <= k && k < len(old(r.Files)) && old(r.Files[k]) != 18446744073709551615 ==> K.fdt[k] == old(K.fdt[r.Files[k]]) && !K.clo[k]
+//@   callsite syscall.RawSyscall6 when trap == 322: assert @C06 #int forall j int :: j >= len(old(r.Files)) && K.fdt[j] != 0 ==> K.clo[j]
+//@   callsite syscall.RawSyscall when trap == 59: assert @C06 #int forall k int :: 0 <= k && k < len(old(r.Files)) && old(r.Files[k]) == 18446744073709551615 ==> K.fdt[k] == 0
+//@   callsite syscall.RawSyscall when trap == 59: assert @C06 #int forall k int :: 0 <= k && k < len(old(r.Files)) && old(r.Files[k]) != 18446744073709551615 ==> K.fdt[k] == old(K.fdt[r.Files[k]]) && !K.clo[k]
+//@   callsite syscall.RawSyscall when trap == 59: assert @C06 #int forall j int :: j >= len(old(r.Files)) && K.fdt[j] != 0 ==> K.clo[j]
+
+// ---- bv mode: the security state at the exec point (every option combination; every call may fail) ----
+// Initial ghost state of a freshly cloned child (inherits nothing of these from the model's point of view).
+//@   assume K.sync_stage == 0
+//@   assume #bv K.filter == 0 && !K.nnp && !K.caps_empty && K.sync_stage == 0 && !K.sid_new && !K.ctty && !K.pivoted && !K.old_detached && !K.old_removed && !K.traceme && !K.stopped_self && !K.uid_set && !K.gid_set && !K.groups_set && !K.host_issued && !K.domain_issued
+//@   loop 0: invariant #bv true
+//@   loop 1: invariant #bv pre_shuffle_ok()
+//@   loop 2: invariant #bv true
+//@   loop 3: invariant #bv pre_shuffle_ok()
+//@   loop 4: invariant #bv pre_shuffle_ok() && session_ok() && (pivotRoot != nil ==> K.cwd == addr(pivotRoot))
+//@   loop 5: invariant #bv true
+//@   loop 6: invariant #bv base_ok()
+//@   loop 6: invariant #bv session_ok()
+//@   loop 6: invariant #bv fs_ok()
+//@   loop 6: invariant #bv names_ok()
+//@   loop 7: invariant #bv exec_state_ok()
+//@   callsite syscall.RawSyscall6 when trap == 322: assert @C04 #bv caps_ok() && nnp_ok() && filter_ok() && creds_ok() && session_ok() && names_ok()
+//@   callsite syscall.RawSyscall when trap == 59: assert @C04 #bv caps_ok() && nnp_ok() && filter_ok() && creds_ok() && session_ok() && names_ok()
+//@   callsite syscall.RawSyscall6 when trap == 322: assert @C05 #bv fs_ok()
+//@   callsite syscall.RawSyscall when trap == 59: assert @C05 #bv fs_ok()
+//@   callsite syscall.RawSyscall6 when trap == 322: assert @C07 #int sync_files_ok()
+//@   callsite syscall.RawSyscall when trap == 59: assert @C07 #int sync_files_ok()
+//@   callsite syscall.RawSyscall6 when trap == 322: assert @C07 #bv sync_ok()
+//@   callsite syscall.RawSyscall when trap == 59: assert @C07 #bv sync_ok()
+//@   callsite syscall.RawSyscall6 when trap == 322: assert @C06 @C13 #bv a1 == execFile && a2 == addr(elemaddr(empty, 0)) && a5 == 4096
+//@   callsite syscall.RawSyscall when trap == 317: assert @C03 #bv old(r.Ptrace) ==> K.traceme && K.stopped_self
+//@   callsite syscall.RawSyscall when trap == 317: assert @C04 #bv a1 == 1 && a2 == 1 && a3 == addr(old(r.Seccomp)) && old(r.Seccomp) != nil
+//@   callsite syscall.RawSyscall when trap == 272: assert @C04 #bv old(r.SyncFunc) != nil ==> K.sync_stage == 2
+//@   callsite pkg/forkexec/vfork.RawVforkSyscall when trap == 56: assert @C04 #bv a1 & 2114060288 == old(r.CloneFlags) & 2114060288 && a1 & 255 == 17 && old(r.CgroupFd) == 0
+//@   callsite pkg/forkexec/vfork.RawVforkSyscall when trap == 435: assert @C04 #bv uintptr(clone3.flags) & 2114060288 == old(r.CloneFlags) & 2114060288 && clone3.flags & 8589934592 != 0 && clone3.exitSignal == 17 && clone3.cgroup == uint64(old(r.CgroupFd)) && old(r.CgroupFd) > 0 && a2 == 88
+
+
+// ---- predicates over the ghost child state K (expanded where used) ----
+// 2114060288 = UnshareFlags (NEWIPC|NEWNET|NEWNS|NEWPID|NEWUSER|NEWUTS|NEWCGROUP); securebits NOROOT|NOROOT_LOCKED = 3
+//@ macro creds_ok() = old(r.Credential) != nil ==> K.uid_set && K.uid == uintptr(old(r.Credential.Uid)) && K.gid_set && K.gid == uintptr(old(r.Credential.Gid)) && ((!(old(r.GIDMappings) != nil && !old(r.GIDMappingsEnableSetgroups) && len(old(r.Credential.Groups)) == 0) && !old(r.Credential.NoSetGroups)) ==> K.groups_set && K.ngroups == uintptr(len(old(r.Credential.Groups))))
+//@ macro base_ok() = creds_ok() && K.filter == 0 && !K.nnp && !K.caps_empty && K.sync_stage == 0 && !K.traceme && !K.stopped_self && pid == K.pid
+//@ macro pre_shuffle_ok() = base_ok() && !K.pivoted && !K.old_detached && !K.old_removed
+//@ macro session_ok() = K.sid_new && (old(r.CTTY) ==> K.ctty)
+//@ macro names_ok() = (workdir != nil ==> K.cwd == addr(workdir)) && (hostname != nil ==> K.host_issued && K.host == addr(hostname) && K.hostlen == uintptr(len(old(r.HostName)))) && (domainname != nil ==> K.domain_issued && K.domain == addr(domainname) && K.domainlen == uintptr(len(old(r.DomainName))))
+//@ macro fs_ok() = pivotRoot != nil ==> K.pivoted && K.pivot_new == addr(pivotRoot) && K.old_detached && K.old_removed && K.remount_done[addr(elemaddr(slash, 0))] && K.remount[addr(elemaddr(slash, 0))] & 4129 == 4129
+//@ macro caps_ok() = (old(r.Credential) != nil || old(r.DropCaps)) ==> K.caps_empty && K.secbits & 3 == 3
+//@ macro nnp_ok() = (old(r.NoNewPrivs) || old(r.Seccomp) != nil) ==> K.nnp
+//@ macro filter_ok() = (old(r.Seccomp) != nil ==> K.filter == addr(old(r.Seccomp)) && K.filter_flags == 1) && (old(r.Seccomp) == nil ==> K.filter == 0)
+//@ macro sync_ok() = old(r.SyncFunc) != nil ==> K.sync_stage == 2
+//@ macro sync_files_ok() = old(r.SyncFunc) != nil ==> K.sync_stage == 2 && K.sync_wfile == old(K.fdt[p[1]]) && K.sync_rfile == old(K.fdt[p[1]])
+//@ macro exec_state_ok() = caps_ok() && nnp_ok() && filter_ok() && creds_ok() && session_ok() && names_ok() && fs_ok() && sync_ok()
 
 // NUL-terminated constant strings handed to the kernel: non-empty, so &x[0] is in range.
 //@ global pkg/forkexec.none props C05: invariant len(none) == 5
